@@ -27,7 +27,7 @@ import (
 )
 
 type C13Op struct {
-	Kind string `json:"kind"` // ls | lp | close
+	Kind string `json:"kind"` // ls | lp | close | dial (H+1 clients connect to the stream address; nobody accepts them)
 	Addr int    `json:"addr"`
 	H    int    `json:"h"`
 }
@@ -44,12 +44,21 @@ type C13Case struct {
 func genC13(t *rapid.T) C13Case {
 	c := C13Case{Addrs: rapid.IntRange(1, 3).Draw(t, "addrs"), Reps: 50, PreFail: rapid.IntRange(0, 3).Draw(t, "prefail") == 0}
 	g := rapid.IntRange(2, 12).Draw(t, "goroutines")
+	// every third case has clients connecting to the stream addresses meanwhile (connections nobody accepts)
+	clients := rapid.IntRange(0, 2).Draw(t, "clients") == 0
+	if clients {
+		c.Reps = 20
+	}
 	for i := 0; i < g; i++ {
 		n := rapid.IntRange(1, 8).Draw(t, "nops")
 		var plan []C13Op
 		for j := 0; j < n; j++ {
 			// biased: listen then close immediately, so that last-close races with other listens
-			k := rapid.SampledFrom([]string{"ls", "ls", "lp", "close", "close", "close"}).Draw(t, "kind")
+			kinds := []string{"ls", "ls", "lp", "close", "close", "close"}
+			if clients {
+				kinds = []string{"ls", "ls", "ls", "lp", "close", "close", "close", "close", "dial", "dial"}
+			}
+			k := rapid.SampledFrom(kinds).Draw(t, "kind")
 			plan = append(plan, C13Op{Kind: k, Addr: rapid.IntRange(0, c.Addrs-1).Draw(t, "addr"), H: rapid.IntRange(0, 7).Draw(t, "h")})
 		}
 		c.Plans = append(c.Plans, plan)
@@ -76,12 +85,31 @@ func deadlockSignature() (string, string) {
 			dump = append(dump, g)
 		}
 	}
+	prefix := "deadlock:"
+	if len(sites) == 0 {
+		// nobody waits for a mutex: a call wedged on something else inside listeners.go (a channel, a wait group)
+		prefix = "wedge:"
+		for _, g := range strings.Split(string(buf[:n]), "\n\n") {
+			if !strings.Contains(g, "service/listeners.go") || !(strings.Contains(g, "[chan ") || strings.Contains(g, "[select") || strings.Contains(g, "[semacquire") || strings.Contains(g, "[sync.")) {
+				continue
+			}
+			if !strings.Contains(g, "props.runC13") && !strings.Contains(g, ".Close(") {
+				continue // only the calls the test issued, not the manager's own background loops
+			}
+			if m := frameRe.FindStringSubmatch(g); m != nil {
+				sites[m[1]+"."+m[2]] = true
+			}
+			if len(dump) < 4 {
+				dump = append(dump, g)
+			}
+		}
+	}
 	var ss []string
 	for s := range sites {
 		ss = append(ss, s)
 	}
 	sort.Strings(ss)
-	return "deadlock:" + strings.Join(ss, "<->"), strings.Join(dump, "\n\n")
+	return prefix + strings.Join(ss, "<->"), strings.Join(dump, "\n\n")
 }
 
 func runC13(c C13Case, info *kit.Info) *kit.Finding {
@@ -101,6 +129,8 @@ func runC13(c C13Case, info *kit.Info) *kit.Finding {
 			}
 		}
 		var wg sync.WaitGroup
+		var dialMu sync.Mutex
+		var dialed []net.Conn
 		errs := make(chan *kit.Finding, len(c.Plans)*16)
 		envErr := make(chan string, 64)
 		start := make(chan struct{})
@@ -172,6 +202,14 @@ func runC13(c C13Case, info *kit.Info) *kit.Finding {
 						if h != nil {
 							mine = append(mine, h)
 						}
+					case "dial":
+						for k := 0; k <= op.H%4; k++ {
+							if cn, err := kit.DialTCP(saddr[op.Addr], 200*time.Millisecond); err == nil {
+								dialMu.Lock()
+								dialed = append(dialed, cn)
+								dialMu.Unlock()
+							}
+						}
 					case "close":
 						if len(mine) > 0 {
 							i := op.H % len(mine)
@@ -208,6 +246,15 @@ func runC13(c C13Case, info *kit.Info) *kit.Finding {
 		default:
 		}
 		// the manager remains usable: sequential listen + close on every address
+		closeDialed := func() {
+			dialMu.Lock()
+			for _, cn := range dialed {
+				cn.Close()
+			}
+			dialed = nil
+			dialMu.Unlock()
+		}
+		defer closeDialed()
 		fin := make(chan *kit.Finding, 1)
 		go func() {
 			for a := 0; a < c.Addrs; a++ {
@@ -233,6 +280,7 @@ func runC13(c C13Case, info *kit.Info) *kit.Finding {
 			sig, dump := deadlockSignature()
 			return kit.Violation(sig, "repetition %d: the sequential listen+close after the concurrent phase did not return within 5 s:\n%s", rep, dump)
 		}
+		closeDialed()
 	}
 	// non-trivial: at least two goroutines use one address, one of them closing
 	use := map[string]int{}
@@ -251,6 +299,13 @@ func runC13(c C13Case, info *kit.Info) *kit.Finding {
 	for _, n := range use {
 		racing = racing || n >= 2
 	}
+	dials := false
+	for _, plan := range c.Plans {
+		for _, op := range plan {
+			dials = dials || op.Kind == "dial"
+		}
+	}
+	info.Class(fmt.Sprintf("clients-connecting:%v", dials))
 	info.NonTrivial = racing
 	info.Steps = c.Reps
 	info.Class(fmt.Sprintf("goroutines:%d", len(c.Plans)))
